@@ -712,4 +712,23 @@ theorem bitmap_updates_are_single_bits :
 
 example : ("alloctxn.WriteBits", "OverWrite", "1") ∈ GoNfsd.Gen.Skeleton.journalObjects := by decide
 
+/-- "NAMES ARE UNIQUE" AT THE LEVEL OF THE DIRECTORY CODE: the nfs layer checks the absence of a name in the name
+    CACHE only (`dir.LookupName`), never on disk; because the cache is the directory in every reachable state (model
+    M8e, `Props/C10.name_cache_is_the_directory`), the slots on disk never hold a name twice — for every history of
+    lookups, insertions, removals, evictions, restarts and aborted transactions.  (Seeded changes C04l / C10k bound the
+    scan that rebuilds the cache: the cache misses entries and a second entry of the same name is written.) -/
+theorem names_stay_unique_with_the_cache_as_the_only_check (ops : List GoNfsd.Model.NameCache.Op) :
+    (GoNfsd.Model.Fs.liveNames (GoNfsd.Model.NameCache.run {} ops).cur.slots).Nodup :=
+  GoNfsd.Props.C10.names_unique_under_cached_checks ops
+
+/-- a new name never overwrites a live entry: the slot `AddNameDir` picks is free or the end, whatever the hint -/
+theorem a_new_name_overwrites_no_entry (slots : List GoNfsd.Model.Fs.Slot) (lastoff : Nat) (sl : GoNfsd.Model.Fs.Slot)
+    (h : slots[GoNfsd.Model.NameCache.addSlot slots lastoff]? = some sl) : sl.inum = 0 := by
+  have := GoNfsd.Model.NameCache.addSlot_ok slots lastoff
+  unfold GoNfsd.Model.Fs.slotOk at this
+  simp only [Bool.or_eq_true, decide_eq_true_eq] at this
+  rcases this with this | this
+  · have := (List.getElem?_eq_some_iff.mp h).1; omega
+  · rw [h] at this; simpa using this
+
 end GoNfsd.Props.C04
